@@ -1,9 +1,10 @@
 -------------------------------- MODULE StopRA --------------------------------
-(* Backend stop and flush handshakes under the C++ release/acquire model.                                             *)
+(* Backend stop, flush and logger-removal handshakes under the C++ release/acquire model.                             *)
 (* C07: "every statement whose log call completed before the stop was requested is written and flushed before the     *)
 (* backend thread terminates, including statements of threads that already exited";                                   *)
 (* C06: "when flush_log() returns, every statement the calling thread logged before the call has been written ... so   *)
-(* it can be read from the destination".                                                                              *)
+(* it can be read from the destination";                                                                              *)
+(* C17: "remove_logger_blocking returns only after the removal has completed" (logger erased, its sinks destroyed).   *)
 (*   logging thread X:  log call ... commit_write(): writer_pos.store(MoCommit)                                      *)
 (*                      flush_log(): a flush request through the queue carrying the address of a local atomic flag,    *)
 (*                                   then `while (!flag.load(MoFlushLoad))`                                           *)
@@ -58,7 +59,7 @@ Init ==
   /\ W = <<Msg(0, Zero, Zero)>> /\ WY = <<Msg(0, Zero, Zero)>> /\ R = <<Msg(1, Zero, Zero)>> /\ FL = <<Msg(0, Zero, Zero)>>
   /\ RB = <<Msg(0, Zero, Zero)>>
   /\ clk = [t \in T |-> Zero] /\ view = [t \in T |-> [o \in {"W", "R", "WY", "FL"} |-> 1]]
-  /\ st = [xq |-> <<>>,            \* X's records in queue order: [k |-> "s" | "f", ts |-> call order]
+  /\ st = [xq |-> <<>>,            \* X's records in queue order: [k |-> "s" statement | "f" flush request | "r" removal request, ts |-> call order]
            yq |-> <<>>,            \* Y's records (timestamps)
            gts |-> 0,              \* call order = timestamp order (the script runs the log calls one after the other)
            consumed |-> 0, proc |-> 0, consumedY |-> 0, procY |-> 0,     \* records read into the transit buffers / written
